@@ -56,16 +56,30 @@ class Public(Case):
 
     def inputs(self, mk):
         p = self.params
-        return dict(specs=[shell_spec(mk, "ABCD"[i], l, K, M) for i, (l, K, M) in enumerate(zip(p["ls"], p["Ks"], p["Ms"]))])
+        share = p.get("share", {})  # shell index -> index of the earlier shell whose centre it sits on
+        specs = []
+        for i, (l, K, M) in enumerate(zip(p["ls"], p["Ks"], p["Ms"])):
+            coord = specs[share[str(i)]]["A"] if str(i) in share else None
+            specs.append(shell_spec(mk, "ABCD"[i], l, K, M, coord=coord))
+        return dict(specs=specs)
 
     def code(self, I, mk):
         from gbasis.integrals.kinetic_energy import kinetic_energy_integral
 
-        return {"T": kinetic_energy_integral(cm.basis_from(mk, I["specs"], self.params["types"]))}
+        basis = cm.basis_from(mk, I["specs"], self.params["types"])
+        for i, j in self.params.get("share", {}).items():
+            basis[int(i)]._coord = basis[j]._coord  # one coordinate array per atom, as make_contractions builds it
+        out = {"T": kinetic_energy_integral(basis)}
+        if self.params.get("twice"):
+            out["T2"] = kinetic_energy_integral(basis)
+        return out
 
     def ref(self, I, ops, mk):
         full = cm.ref_two_index(ops, I["specs"], self.params["types"], lambda A, B: G.kinetic_prim(ops, A, B))
-        return {"T": np.array(full, dtype=object)}
+        out = {"T": np.array(full, dtype=object)}
+        if self.params.get("twice"):
+            out["T2"] = out["T"]
+        return out
 
 
 def cases(tier):
@@ -80,6 +94,9 @@ def cases(tier):
     out.append(Public(ls=[2], types="s", Ks=[1], Ms=[2]))
     out.append(Public(ls=[2, 1], types="sc", Ks=[1, 1], Ms=[1, 1]))
     out.append(Public(ls=[1, 2], types="cs", Ks=[1, 1], Ms=[1, 1]))
+    # a "molecule": two shells on one atom (sharing its coordinate array) and one on another atom, evaluated twice
+    out.append(Public(ls=[0, 1, 0], types="ccc", Ks=[1, 1, 1], Ms=[1, 1, 1], share={"1": 0}, twice=True))
+    out.append(Public(ls=[0, 1, 2, 0], types="csss", Ks=[2, 1, 1, 1], Ms=[1, 1, 1, 1], share={"1": 0, "3": 2}))
     if tier == "thorough":
         E = cm.EXP_POOL
         for la in range(4):
